@@ -85,7 +85,9 @@ def py_same(a, b):
     if isinstance(a, float) or isinstance(b, float):
         return struct.pack("<d", a) == struct.pack("<d", b)
     if isinstance(a, (bytes, str)):
-        return type(a).__mro__[-2] is type(b).__mro__[-2] and (bytes(a) == bytes(b) if isinstance(a, bytes) else str(a) == str(b))
+        if isinstance(a, bytes):
+            return isinstance(b, bytes) and bytes(a) == bytes(b)
+        return isinstance(b, str) and str(a) == str(b)
     return int(a) == int(b)
 
 
